@@ -172,6 +172,19 @@ def _has_own_yield(fn_node) -> bool:
     return False
 
 
+def _decimal_digits(q: Fraction) -> Optional[int]:
+    """Number of fractional digits of a terminating decimal expansion (None: not a decimal fraction)."""
+    d = q.denominator
+    n2 = n5 = 0
+    while d % 2 == 0:
+        d //= 2
+        n2 += 1
+    while d % 5 == 0:
+        d //= 5
+        n5 += 1
+    return max(n2, n5) if d == 1 else None
+
+
 def term_symbol(items: List[Tuple[str, int]]) -> str:
     """Symbol of a product of unit symbols, in the documentation's convention."""
     pos, neg = [], []
@@ -1455,6 +1468,29 @@ class DocScript(Catalogue):
             return obj.name
         if isinstance(obj, CFunc) and a in ("__name__", "__qualname__"):
             return obj.name
+        if _is_num(obj) and not isinstance(obj, (bool, float)):
+            q = Fraction(obj)
+            if a == "numerator":
+                return q.numerator
+            if a == "denominator":
+                return q.denominator
+            if a in ("precision", "magnitude"):
+                digits = _decimal_digits(q)
+                if digits is None:
+                    raise _PyRaise("AttributeError", f"a fraction has no {a}")
+                if a == "precision":
+                    return digits
+                if q == 0:
+                    raise _PyRaise("OverflowError", "magnitude of zero")
+                import math
+                m = math.floor(math.log10(abs(q))) if abs(q) >= 1 else -len(str(abs(q).denominator)) + 1
+                while Fraction(10) ** m > abs(q):
+                    m -= 1
+                while Fraction(10) ** (m + 1) <= abs(q):
+                    m += 1
+                return m
+            if a in ("adjusted", "quantize", "as_integer_ratio"):
+                return CBound(obj, a)
         return super()._attr(obj, a, n)
 
     def _cls_text(self, t: CType) -> str:
@@ -1485,6 +1521,14 @@ class DocScript(Catalogue):
                 return obj.how != "base"
         if isinstance(obj, CDefinition) and a == "normalized":
             return obj
+        if _is_num(obj) and not isinstance(obj, (bool, float)):
+            q = Fraction(obj)
+            if a == "adjusted" and len(args) <= 1:
+                # decimal rounded to the given number of fractional digits (dependency default: half to even)
+                nd = int(args[0]) if args else 0
+                return Fraction(round(q * 10 ** nd), 10 ** nd)
+            if a == "as_integer_ratio":
+                return (q.numerator, q.denominator)
         return super()._call_bound(b, args, kwargs, node)
 
     def _fmt_arg(self, v):
@@ -1566,8 +1610,13 @@ class DocScript(Catalogue):
             return isinstance(v, CQty)
         if nm == "str":
             return isinstance(v, str)
-        if nm in ("Rational", "Real", "Number", "Decimal", "Fraction"):
+        if nm in ("Rational", "Real", "Number"):
             return isinstance(v, (int, Fraction)) and not isinstance(v, bool)
+        if nm in ("Decimal", "Fraction"):
+            # exact non-integers of the catalogue: a terminating decimal expansion stands for a Decimal
+            if not isinstance(v, Fraction) or isinstance(v, bool):
+                return False
+            return (_decimal_digits(v) is not None) == (nm == "Decimal")
         if nm == "int":
             return isinstance(v, int)
         if isinstance(spec, CType):
